@@ -2006,17 +2006,31 @@ class FilesystemSecurityContext(
         if self.replay_window_persisted:
             # Just remove the sequence numbers once from the file
             self.replay_window_persisted = False
-            self._store()
+            try:
+                self._store()
+            except BaseException:
+                # Nothing was written, the file still holds the old window:
+                # the next change of the window has to try again.
+                self.replay_window_persisted = True
+                raise
 
     def post_seqnoincrease(self):
         if self.sender_sequence_number > self.sequence_number_persisted:
+            previous = (self.sequence_number_persisted, self.sequence_number_chunksize)
             self.sequence_number_persisted += self.sequence_number_chunksize
 
             self.sequence_number_chunksize = min(
                 self.sequence_number_chunksize * 2, self.sequence_number_chunksize_limit
             )
             # FIXME: this blocks -- see https://github.com/chrysn/aiocoap/issues/178
-            self._store()
+            try:
+                self._store()
+            except BaseException:
+                # The reservation did not reach the disk (eg. ENOSPC): numbers
+                # from it must not be handed out, or they would be used again
+                # after an unclean restart.
+                self.sequence_number_persisted, self.sequence_number_chunksize = previous
+                raise
 
             # The = case would only happen if someone deliberately sets all
             # numbers to 1 to force persisting on every step
